@@ -539,7 +539,7 @@ func genConf(r *Rng, pf Profile, total Res) *ConfSpec {
 			}
 			if r.Bool(pf.Guarantees / 2) {
 				g := sum.Clone()
-				for k := range g {
+				for _, k := range sortedKeys(g) {
 					g[k] += int64(r.Range(0, 2))
 					if m, ok := effMax[k]; ok && g[k] > m {
 						g[k] = m
